@@ -97,3 +97,32 @@ Definition uses_codec (compress : Z -> bytes -> bytes) (i : impl) (c : cfg) (dat
        | Py => negb (blen data <=? blen (compress (c_codec c) data))
        | Cy => true
        end.
+
+(* ---- legacy (v0 / v1) ------------------------------------------------------------------------------ *)
+From Verif Require Import C09_Crc C09_Legacy.
+
+Definition valid_lcfg (c : lcfg) : Prop := (lc_magic c = 0 \/ lc_magic c = 1) /\ 0 <= lc_codec c <= 3.
+Definition valid_lrec (r : record) : Prop :=
+  0 <= r_ts r <= INT64_MAX /\ 0 <= r_offset r <= INT64_MAX /\ olen (r_key r) + olen (r_value r) < TWO31 - 64.
+
+(* the message the builders write for record r, and what a reader must return for it *)
+Definition lmsg_ts (c : lcfg) (r : record) : Z := if lc_magic c =? 0 then -1 else r_ts r.
+Definition lmsg_of (c : lcfg) (r : record) : bytes :=
+  encode_msg (lc_magic c) (r_offset r) (lmsg_ts c r) (r_key r) (r_value r) 0.
+Definition lmsg_crc (c : lcfg) (r : record) : Z :=
+  crc32 (msg_tail (lc_magic c) 0 (lmsg_ts c r) (r_key r) (r_value r)).
+Definition lexpect (c : lcfg) (r : record) : lorecord :=
+  mkLO (r_offset r) (if lc_magic c =? 0 then None else Some (r_ts r))
+       (if lc_magic c =? 0 then None else Some 0) (r_key r) (r_value r) (lmsg_crc c r).
+
+(* a compressed wrapper after the broker's part: wrapper offset woff (for magic 1: at least the
+   last inner offset), optional LogAppendTime *)
+Definition llast_off (acc : list record) : Z := match rev acc with [] => 0 | r :: _ => r_offset r end.
+Definition valid_wstamp (acc : list record) (woff : Z) (lat : option Z) : Prop :=
+  llast_off acc <= woff <= INT64_MAX /\ match lat with Some t => 0 <= t <= INT64_MAX | None => True end.
+Definition lexpect_wrapped (c : lcfg) (acc : list record) (woff : Z) (lat : option Z) (r : record) : lorecord :=
+  if lc_magic c =? 0 then mkLO (r_offset r) None None (r_key r) (r_value r) (lmsg_crc c r)
+  else mkLO (r_offset r + (woff - llast_off acc))
+            (Some (match lat with Some t => t | None => r_ts r end))
+            (Some (match lat with Some _ => 1 | None => 0 end))
+            (r_key r) (r_value r) (lmsg_crc c r).
